@@ -195,6 +195,9 @@ def matrix():
                 for emitted in (None, ("bin", "a/b.bin"), ("raw", "a/c"), ("bk_wav", "t.wav")):
                     for ce in (None, "warning", "reported", "critical", "internal"):
                         yield dict(outfile=outfile, lst=lst, implicit_bin=implicit_bin, emitted=emitted, compile_error=ce)
+    for out in ("prog.v2.bin", "build.d/prog.bin", "a.b.c/x.y.raw", "rel.1/img"):
+        yield dict(outfile=out, lst=True)
+    yield dict(outfile=None, emitted=("bin", "out.d/prog.v3.bin"), lst=True)
     yield dict(outfile="out.bin", infiles=("/src/a.mac", "/src/b.mac", "/src/c.mac"))
     yield dict(outfile=None, implicit_bin=True, lst=True, infiles=("/src/first.mac", "/other/second.mac"))
     yield dict(outfile="out.bin", write_error=True)
